@@ -654,7 +654,7 @@ def run(ctx):
         ctx.mc('MC_Bitemporal', 'MC_Bitemporal_thorough1.cfg')
         ctx.mc('MC_Bitemporal', 'MC_Bitemporal_thorough3.cfg')
         ctx.mc('MC_Bitemporal', 'MC_Bitemporal_tzones.cfg')
-        ctx.mc('MC_Bitemporal', 'MC_Bitemporal_tzones2.cfg')
+        ctx.mc('MC_Bitemporal', 'MC_Bitemporal_zones2.cfg')      # 2 dates x 2 zones x 2 publications
     # the clause "of several sharing a stamp the one merged last" needs a stable sort: the same
     # mechanism with an unstable one must break Refines (shows the invariant is not vacuous)
     ctx.mc('MC_Bitemporal', 'MC_Bitemporal_unstable.cfg', must_fail='MCRefines', coverage=False)
@@ -683,7 +683,7 @@ def run(ctx):
     c2s(ctx, 160 if q else 1500, not q)
     ctx.exhaustive = False
     ctx.assumptions += [
-        'small scope: MC over <= 2 dates x 4 stamps x {1, 2, NaN} x <= 3 (thorough 4) publications, 1 date deeper, 3 dates shallower, 1 date x 3 stamps x 2 zones x 3 (thorough 4) publications, thorough also 2 dates x 3 stamps x 2 zones x 3; '
+        'small scope: MC over <= 2 dates x 4 stamps x {1, 2, NaN} x <= 3 (thorough 4) publications, 1 date deeper, 3 dates shallower, 1 date x 3 stamps x 2 zones x 3 (thorough 4) publications, thorough also 2 dates x 3 stamps x 2 zones x 2; '
         'S2C exhaustive for the gen1/gen2 universes, sampled (TLC -simulate) for 3 dates x 4 stamps x <= 4 publications',
         'dates and instants are integers in the specification; the driver maps them to datetimes by strictly increasing (for written '
         'times: affine) maps - units of 13 h, 24 h (midnights), 12 h (noon / midnight) without a zone, 5 h with zones UTC-10 .. UTC+10',
